@@ -632,6 +632,10 @@ def check_C05(ctx):
             tlc(ctx, "mc/MC_CombineNeg.cfg", "mc/MC_Combine.tla")["out"],       # matrices with negative entries (a user-supplied similarity may return any number)
             tlc(ctx, "mc/MC_CombineBig.cfg", "mc/MC_Combine.tla", workers=2)["out"],     # random matrices up to 33x33 (beyond small-vector capacities)
             tlc(ctx, "mc/MC_Cache.cfg" if ctx.quick else "mc/MC_Cache3.cfg", "mc/MC_Cache.tla", workers=14, timeout=1800)["out"]]
+    if not ctx.quick:
+        # every matrix up to 3x3 over FOUR values (349 k) and every 2x4, 4x2, 2x5, 5x2, 1x8, 8x1 matrix over three values (144 k)
+        outs.append(tlc(ctx, "mc/MC_CombineT.cfg", "mc/MC_Combine.tla", workers=6, timeout=3000)["out"])
+        outs.append(tlc(ctx, "mc/MC_CombineWideT.cfg", "mc/MC_Combine.tla", workers=6, timeout=3000)["out"])
     allout = concat(ctx, outs, "c05-lines.txt")
     s = hv(ctx, "replay-set", prop="C05", **{"in": allout})
     ctx.traces += s.get("cases", 0)
